@@ -71,7 +71,7 @@ type FakeUpstream struct {
 
 	mu          sync.Mutex
 	queries     []*UpQuery
-	badHTTP  []string
+	badHTTP     []string
 	seq         atomic.Int64
 	connSeq     atomic.Int64
 	conns       atomic.Int64 // accepted stream connections
@@ -86,10 +86,10 @@ type FakeUpstream struct {
 	// connections accepted later are served normally. Set by ResetStreamsOnLiveConns.
 	resetStreamsUpTo atomic.Int64
 	streamResets     atomic.Int64
-	StopReading atomic.Bool  // stream kinds: while set, no further frame is read from any connection (the peer's writes back up)
-	liveMu      sync.Mutex
-	live        map[int64]io.Closer // open accepted connections by id
-	liveTCP     map[int64]*net.TCPConn
+	StopReading      atomic.Bool // stream kinds: while set, no further frame is read from any connection (the peer's writes back up)
+	liveMu           sync.Mutex
+	live             map[int64]io.Closer // open accepted connections by id
+	liveTCP          map[int64]*net.TCPConn
 }
 
 // OpenConns is the number of accepted connections the peer has not closed yet.
@@ -142,7 +142,10 @@ func (u *FakeUpstream) KillConns(reset bool) int {
 // ResetStreamsOnLiveConns makes every DoQ connection accepted so far refuse new streams (it returns how many streams have
 // been refused up to now).
 func (u *FakeUpstream) ResetStreamsOnLiveConns() { u.resetStreamsUpTo.Store(u.connSeq.Load()) }
-func (u *FakeUpstream) StreamResets() int64     { return u.streamResets.Load() }
+func (u *FakeUpstream) StreamResets() int64      { return u.streamResets.Load() }
+
+// LastConnID returns the ID of the newest connection accepted so far (UpQuery.ConnID of its queries).
+func (u *FakeUpstream) LastConnID() int64 { return u.connSeq.Load() }
 
 type quicCloser struct{ c quic.Connection }
 
